@@ -56,7 +56,28 @@ def run_case(col, pp, cfg, case):
     world = bench.World(pp, subs_json=case['subs'])
     ref, R = world.ref, world.real
     solute = world.subs[case['solute']]
-    stock = pp.Container('stock', case.get('cap') or 'inf L', [(R[i], q) for i, q in case['stock']])
+    members = case['stock']
+    stock = None
+    later = [m for m in members if m[0] != case['solute']][-1:] if case.get('aged') and len(members) > 1 else []
+    if later:
+        # the same stock reached through a history: without its last member it is diluted once (throw-away), then the
+        # last member is poured into what is left.  What the call does with a stock depends on what it holds now (the
+        # reference reads the final contents), not on how it got there.
+        try:
+            stock = pp.Container('stock', case.get('cap') or 'inf L', [(R[i], q) for i, q in members if [i, q] != later[0]])
+            b0 = world.base(bench.view_container(stock))
+            other = next(i for i, s_ in enumerate(world.subs) if s_.kind == 'liquid' and i != case['solute'])
+            try:
+                stock = pp.Container.create_solution_from(stock, R[case['solute']], f"{ref.conc(b0, solute.name, 'mol', 'g') / 2:.6g} mol/g",
+                                                          R[other], f"{ref.size(b0, 'g') * 0.01:.6g} g", 'prime')[0]
+                col.label('stock:diluted-once-before')
+            except Exception:  # noqa  (the priming call is not judged here)
+                pass
+            stock = pp.Container.transfer(pp.Container('more', initial_contents=[(R[later[0][0]], later[0][1])]), stock, later[0][1])[1]
+        except Exception:  # noqa
+            stock = None
+    if stock is None:
+        stock = pp.Container('stock', case.get('cap') or 'inf L', [(R[i], q) for i, q in members])
     sview = bench.view_container(stock)
     sbase = world.base(sview)
     container_solvent = 'c' in case['solvent']
@@ -257,8 +278,11 @@ def cases(draw, cfg):
     if draw(st.integers(0, 5)) == 0:
         frac = 10 ** draw(st.floats(-6, -2))          # a request that is tiny compared with the stock
     q = render_q(supply * frac, qfam, draw(st.sampled_from(PREFIX_POOL)), draw(st.integers(0, 2)), 6)
-    return {'subs': [s.to_json() for s in subs], 'stock': stock, 'solute': solute, 'solvent': solvent,
-            'conc': conc.text, 'q': q.text}
+    out = {'subs': [s.to_json() for s in subs], 'stock': stock, 'solute': solute, 'solvent': solvent,
+           'conc': conc.text, 'q': q.text}
+    if len(stock) > 1 and draw(st.integers(0, 2)) == 0:
+        out['aged'] = True
+    return out
 
 
 def run(col):
